@@ -27,6 +27,8 @@ def histories(rng, tier):
             masks = [0, full, full | (1 << (n + 2)), 1 << (n + 1)]
             if n:
                 masks += [1 << rng.randrange(n), rng.randrange(1 << n), rng.randrange(1 << n) | (1 << (n + 3))]
+            # QReg::measure(): the whole register
+            hs.append((rng.randrange(1 << 30), list(base) + [("dump",), ("measureall",), ("dump",), ("measureall",), ("dump",)]))
             for m in masks:
                 for _ in range(1 if tier == "quick" else reps):
                     acts = list(base) + [("dump",), ("measure", m), ("dump",), ("measure", m), ("dump",)]
@@ -64,7 +66,7 @@ def oracle(acts, recs):
     # walk: dump, m, dump triples
     k = 0
     ai = 0
-    measures = [a for a in acts if a[0] == "measure"]
+    measures = [a if a[0] == "measure" else ("measure", (1 << 64) - 1) for a in acts if a[0] in ("measure", "measureall")]
     mi = 0
     prev = None
     last_m = None
@@ -72,7 +74,7 @@ def oracle(acts, recs):
     touched = []
     t = False
     for a in acts:
-        if a[0] == "measure":
+        if a[0] in ("measure", "measureall"):
             touched.append(t); t = False
         elif a[0] in ("apply", "tensorr", "tensorl", "mulassign", "setnum"):
             t = True
